@@ -160,6 +160,8 @@ def nested_nodes(node):
     out = []
     stack = []
     for a in node.attributes.values():
+        if a.is_ref():
+            continue
         if a.type == ir.AttributeType.GRAPH:
             stack.append(a.value)
         elif a.type == ir.AttributeType.GRAPHS:
@@ -169,6 +171,8 @@ def nested_nodes(node):
         for m in g:
             out.append(m)
             for a in m.attributes.values():
+                if a.is_ref():
+                    continue
                 if a.type == ir.AttributeType.GRAPH:
                     stack.append(a.value)
                 elif a.type == ir.AttributeType.GRAPHS:
